@@ -103,6 +103,9 @@ pub fn peephole_compile<'a>(
 ) -> Result<Fun, collections::Vec<'a, Diagnostic<VmFileId>>> {
   let (instructions, constants, lines) = chunk_builder.take();
 
+  #[cfg(feature = "verif")]
+  let verif_pre = crate::verif::dump_enabled().then(|| (instructions.clone(), lines.clone()));
+
   let (mut instructions, lines) = peephole_optimize(instructions, lines);
 
   let label_count = label_count(&instructions);
@@ -120,9 +123,27 @@ pub fn peephole_compile<'a>(
   let line_buffer = collections::Vec::with_capacity_in(instructions.len() * 2, alloc);
   let errors = collections::Vec::new_in(alloc);
 
+  #[cfg(feature = "verif")]
+  let verif_post_lines = lines.clone();
+
   let encoder = ByteCodeEncoder::new(line_buffer, code_buffer, errors, cache_id_emitter);
   let EncodedChunk { code, lines } =
     encoder.encode(&instructions, &lines, &label_offsets[..label_count])?;
+
+  #[cfg(feature = "verif")]
+  if let Some((pre, pre_lines)) = verif_pre {
+    crate::verif::dump_fun(
+      &fun_builder,
+      &pre,
+      &pre_lines,
+      &instructions,
+      &verif_post_lines,
+      &code,
+      &lines,
+      &constants,
+      &label_offsets[..label_count],
+    );
+  }
 
   let instructions = hooks.manage(&*code);
   hooks.push_root(instructions);
@@ -133,6 +154,15 @@ pub fn peephole_compile<'a>(
   assert_eq!(lines.len(), instructions.len());
 
   Ok(fun_builder.build(Chunk::new(instructions, constants, lines)))
+}
+
+/// The optimiser on its own for external monitors
+#[cfg(feature = "verif")]
+pub fn verif_peephole_optimize(
+  instructions: Vec<SymbolicByteCode>,
+  lines: Vec<u16>,
+) -> (Vec<SymbolicByteCode>, Vec<u16>) {
+  peephole_optimize(instructions, lines)
 }
 
 fn peephole_optimize(
